@@ -106,6 +106,11 @@ tommy_inline void hashlin_grow_step(tommy_hashlin* hashlin)
 			/* because data is fully initialized in the split process */
 			segment = tommy_cast(tommy_hashlin_node**, tommy_malloc(hashlin->low_max * sizeof(tommy_hashlin_node*)));
 
+			/* without the new segment the table cannot grow now; it stays stable and */
+			/* fully usable (only with longer chains), the next insert tries again */
+			if (!segment)
+				return;
+
 			/* store it adjusting the offset */
 			/* cast to ptrdiff_t to ensure to get a negative value */
 			hashlin->bucket[hashlin->bucket_bit] = &segment[-(tommy_ptrdiff_t)hashlin->low_max];
